@@ -295,6 +295,12 @@ func (vt *Model) decrqm(pd int) {
 		case false:
 			ps = 2
 		}
+	case 2027:
+		// Grapheme clustering (unicode core): we always print whole
+		// grapheme clusters with their unicode width. Applications
+		// (vaxis included) measure text the legacy way unless they learn
+		// this from our reply
+		ps = 1
 	}
 	fmt.Fprintf(vt.pty, "\x1B[?%d;%d$y", pd, ps)
 }
